@@ -399,6 +399,9 @@ func VerifHarness_C08_parse() {
 	p := NewParser(src, opts...)
 	sum, err := p.Parse()
 
+	if !verifrt.Symbolic() && err != nil {
+		println("DEBUG err:", err.Error(), "n", n, "kinds", es[0].kind, es[0].base, es[1].kind, es[1].base, "store", withStore, "seek", seekable)
+	}
 	verifrt.Reach("c08-parse-well-formed")
 	verifrt.Known("C08-thin-delta-on-thin-delta", anyFail)
 	verifrt.Assert(err == nil, "c08-parse-accepts-well-formed-pack")
